@@ -131,7 +131,7 @@ Record pre := mkPre {
   p_array_empty : bool;          (* no info word set (scrub: "The array appears to be empty") *)
   p_scrub_stripes : N;
   p_scrub_errors : bool;
-  p_check_errors : bool;
+  p_check_errors : bool;         (* check: errors found; fix: unrecoverable errors on stripes of objects that are not selected *)
   p_diff : bool;
   p_fix_items : list fixitem;
   p_fix_parity : list (N * N);   (* (level, position) of parity blocks found wrong on fully valid stripes *)
@@ -312,7 +312,8 @@ Definition check_body (fixing : bool) (o : opts) (p : pre) : list effect * list 
     let it := if active then items_effects (p_fix_items p) else ([], []) in
     let pf := if active then fix_parity o p else ([], []) in
     (rsz ++ fst it ++ fst pf, snd it ++ snd pf,
-     if active && any_unrecoverable (p_fix_items p) then ExErrors else ExOk).
+     (* unrecoverable_error <> 0: a selected object could not be rebuilt, or some other stripe could not be verified *)
+     if active && (any_unrecoverable (p_fix_items p) || p_check_errors p) then ExErrors else ExOk).
 
 (* ---------------------------------------------------------------------------------------------------- dispatch *)
 
